@@ -36,6 +36,7 @@ type c17Lattice struct {
 	Chain    int  `json:"chain"`    // keys 0..Chain are derived; 0 = no guard (divergent)
 	TwoRules bool `json:"twoRules"` // a second rule derives a smaller value for the same key (the merge keeps the larger)
 	Plain    bool `json:"plain"`    // control: the same program without the merge declaration
+	Ascend   bool `json:"ascend"`   // the rule raises the value of the SAME key (an ascending chain in the lattice: one stored fact, replaced every round)
 }
 
 type c17 struct{}
@@ -52,7 +53,7 @@ func (c17) Cases(tier string) int {
 func (c17) Describe() core.Info {
 	return core.Info{
 		Level: "exploration",
-		Rule: "typed random programs WITHOUT termination guards (unbounded fn:plus / fn:mult / fn:list:cons through recursion) mixed with terminating ones, base facts preloaded, evaluated with WithCreatedFactLimit(L), L in {1,2,5,20,100}, on every writable store kind behind a counting wrapper; every 25th case is a counting chain level(N,D) (guarded to 3..4000 keys or unguarded, one or two rules) on a predicate declared with fundep + merge (facts merged per key through a deferred lattice predicate), or the same chain without the declaration as control: one fresh key per round, so only the total limit can stop it; a nil error there requires every level(n,n) up to the guard. Decided on logical steps: the wrapper aborts the run when successful Adds exceed B = (rules+3)*(L+1)*(strata+1) (violation: unbounded creation); a nil error requires the store to equal the reference model, which is computed with a bound of (rules+3)*(L+1)+50 derived facts (reference larger => the engine must have returned an error, because its own per-join/per-round/per-store checks cap what an error-free run can create). Non-trivial: program diverges (reference exceeds its bound) or its number of derived facts is within +-3 of L; distinct by (program, L, store).",
+		Rule: "typed random programs WITHOUT termination guards (unbounded fn:plus / fn:mult / fn:list:cons through recursion) mixed with terminating ones, base facts preloaded, evaluated with WithCreatedFactLimit(L), L in {1,2,5,20,100}, on every writable store kind behind a counting wrapper; every 25th case is a counting chain level(N,D) (guarded to 3..4000 keys or unguarded, one or two rules) on a predicate declared with fundep + merge (facts merged per key through a deferred lattice predicate), or the same chain without the declaration as control: one fresh key per round (or, in a third of them, one key whose value rises every round: an ascending chain in the lattice, a single stored fact replaced again and again), so only a limit on created facts can stop it; a nil error there requires every level(n,n) up to the guard. Decided on logical steps: the wrapper aborts the run when successful Adds exceed B = (rules+3)*(L+1)*(strata+1) (violation: unbounded creation); a nil error requires the store to equal the reference model, which is computed with a bound of (rules+3)*(L+1)+50 derived facts (reference larger => the engine must have returned an error, because its own per-join/per-round/per-store checks cap what an error-free run can create). Non-trivial: program diverges (reference exceeds its bound) or its number of derived facts is within +-3 of L; distinct by (program, L, store).",
 		Assumptions: []string{"an error on a small terminating program is not judged (the property does not exclude it); it is counted", "B is derived from the per-join, per-round and per-store limit checks of the loop and is deliberately generous"},
 		PerCaseTimeout: 120e9,
 	}
@@ -77,7 +78,7 @@ func (c17) Gen(r *rand.Rand, tier string, i int) any {
 		return c17Case{Prog: p, Limit: []int{5, 20, 50, 100}[r.Intn(4)], Kind: engineStoreKinds[r.Intn(len(engineStoreKinds))], Text: progText(p)}
 	}
 	if i%25 == 3 {
-		l := &c17Lattice{Chain: []int{0, 3, 10, 30, 150, 1000, 4000}[r.Intn(7)], TwoRules: r.Intn(2) == 0, Plain: r.Intn(5) == 0}
+		l := &c17Lattice{Chain: []int{0, 3, 10, 30, 150, 1000, 4000}[r.Intn(7)], TwoRules: r.Intn(2) == 0, Plain: r.Intn(5) == 0, Ascend: r.Intn(3) == 0}
 		c := c17Case{Limit: []int{1, 2, 5, 20, 100}[r.Intn(5)], Kind: engineStoreKinds[r.Intn(len(engineStoreKinds))], Lattice: l}
 		c.Text = c17LatticeText(*l)
 		return c
@@ -126,6 +127,13 @@ func c17LatticeText(l c17Lattice) string {
 		guard = fmt.Sprintf("M < %d, ", l.Chain)
 	}
 	t := "level(0, 0).\nlevel(N, D) :- level(M, C), " + guard + "N = fn:plus(M, 1), D = fn:plus(C, 1).\n"
+	if l.Ascend {
+		guard = ""
+		if l.Chain > 0 {
+			guard = fmt.Sprintf("C < %d, ", l.Chain)
+		}
+		t = "level(0, 0).\nlevel(N, D) :- level(N, C), " + guard + "D = fn:plus(C, 1).\n"
+	}
 	if l.TwoRules {
 		t += "level(N, D) :- level(M, C), " + guard + "N = fn:plus(M, 1), D = C.\n"
 	}
@@ -206,6 +214,13 @@ func c17ExecLattice(c c17Case, res *core.Result) (skip string, fail *evalFail) {
 	}
 	if l.Chain == 0 {
 		return "", &evalFail{"silent-partial-result:divergent" + tag, fmt.Sprintf("limit %d, store %s: evaluation of the unguarded chain returned nil after creating %d facts", c.Limit, c.Kind, cs.adds)}
+	}
+	if l.Ascend {
+		// the complete model under the merge keeps the top value of key 0 (without the declaration: every value)
+		if !cs.Contains(ast.NewAtom("level", ast.Number(0), ast.Number(int64(l.Chain)))) {
+			return "", &evalFail{"silent-partial-result" + tag, fmt.Sprintf("limit %d, store %s: evaluation returned nil but level(0,%d) is missing (ascending chain to %d)", c.Limit, c.Kind, l.Chain, l.Chain)}
+		}
+		return "", nil
 	}
 	for n := 0; n <= l.Chain; n++ {
 		if !cs.Contains(ast.NewAtom("level", ast.Number(int64(n)), ast.Number(int64(n)))) {
